@@ -58,6 +58,7 @@ def run(prog, R):
     R.rule('LOOP-1', 'every back edge of a retry loop (one that grows or compacts the buffer) passes through the refill')
 
     # ---------------------------------------------------------------- ERR-1
+    set_prog(prog)
     refills = refill_fn(prog)
     counters = {}
     for body in scope_bodies(prog):
@@ -85,7 +86,7 @@ def run(prog, R):
             sinks = forward_sinks(body, t.dest.local, follow_refs=True, through=PROPAGATORS)
             ret = any(k == 'ret' and not via for (k, n, i, via) in sinks)
             drops = [n for (k, n, i, via) in sinks if k == 'drop' and not via]
-            swallow = [n for (k, n, i, via) in sinks if k == 'call' and not via and n.callee and n.callee.path in SWALLOW and not is_lossless_map_err(n)]
+            swallow = [n for (k, n, i, via) in sinks if k == 'call' and not via and n.callee and n.callee.path in SWALLOW and not is_lossless_map_err(n, body)]
             ok = ret and not drops and not swallow
             why = []
             if not ret:
